@@ -9,7 +9,9 @@ A program is a JSON-able dict
      'vars':   {name: int},         # name SET int, defined up front, re-SET inside branches
      'macros': [{'name', 'params': [...], 'body': [items]}],
      'files':  {'src': [names], 'inc': [names], 'incdir': d},   # include files next to the source / in the -i directory d (a subdirectory)
-     'fwdref': bool,                # the program starts with a reference to a label defined on its last line (forces a second pass)
+     'fwdref': 0|2|3,               # number of passes forced: 2 = the program starts with a reference to a label defined on its last
+                                    # line; 3 = additionally LDA of a 16-bit constant defined at the end (assumed zero-page in pass 1,
+                                    # absolute from pass 2 on, which moves every address once more)
      'items':  [items]}
 
 item  := {'t':'mark','id':n}                      emits the 16-bit marker n (low byte first)
@@ -29,6 +31,7 @@ cond  := ['expr',e] | ['def',name,neg] | ['used',name,neg] | ['exist',name,neg,q
 arg   := ['txt',s] | ['param',p]                  (s may be '')
 e     := ['int',n] | ['flt',x] | ['str',s] | ['sym',name] | ['param',p] | ['cmp',op,e,e]
        | ['not',e] | ['and',e,e] | ['or',e,e] | ['band',e,e]          (band: binary AND '&' of two integers)
+       | ['isdef',name]                                               (built-in function DEFINED(name))
 opd   := ['int',n] | ['flt',x] | ['str',s] | ['sym',name] | ['param',p] | ['add',opd,opd]
 
 Semantics taken from the manual:
@@ -40,6 +43,9 @@ Semantics taken from the manual:
    first, then the -i list; the list is ignored for a name with a path, which is relative to the source's directory); IFB: all arguments of the list are empty strings (an empty list included); IFNB: not IFB.
  * SWITCH/CASE: only the first CASE whose value list contains the selector is assembled; ELSECASE if none did;
    a warning is issued at ENDCASE if no CASE matched and there is no ELSECASE.
+ * all of this is a function of the position in the source, not of the pass: 'defined before' / 'referenced up to now' mean the
+   statements above the probe in THIS pass (symbol values survive a pass, their defined/used marks do not), so a program that needs
+   two or three passes selects the same branches in every pass.
  * statements in skipped blocks have no effect at all (no code, no symbols, no references, no diagnostics).
  * EXITM (executed, i.e. not skipped) ends the innermost macro expansion / REPT / IRP / WHILE and resets the stack of open
    IF/SWITCH constructs to the state before that expansion started.
@@ -96,6 +102,8 @@ def r_expr(e, top=True):
         s = '%s+%s' % (r_expr(e[1], False), r_expr(e[2], False))
     elif k == 'band':
         s = '%s&%s' % (r_expr(e[1], False), r_expr(e[2], False))
+    elif k == 'isdef':
+        return 'defined(%s)' % e[1]
     else:
         raise ModelError('expr ' + repr(e))
     return s if top else '(%s)' % s
@@ -204,10 +212,18 @@ def render(prog):
         lines.append('\tendm')
     if prog.get('fwdref'):
         lines.append('\tadr\tfwdlabel')
+        if prog['fwdref'] >= 3:
+            lines.append('\tlda\tfwdconst')
     render_items(prog['items'], lines)
     if prog.get('fwdref'):
+        if prog['fwdref'] >= 3:
+            lines.append('fwdconst\tequ\t$1234')
         lines.append('fwdlabel:')
     return '\n'.join(lines) + '\n'
+
+
+def prologue_len(prog):
+    return {0: 0, 2: 2, 3: 5}[int(prog.get('fwdref') or 0)]
 
 
 # ---------------------------------------------------------------------------
@@ -331,6 +347,8 @@ class Machine:
             if b is None or b[0] == 'blank':
                 raise ModelError('blank parameter in an expression')
             return self.value(b)
+        if k == 'isdef':
+            return 1 if e[1].upper() in self.res.defined else 0
         if k == 'add':
             return self.value(e[1]) + self.value(e[2])
         if k == 'band':
@@ -529,6 +547,8 @@ def predict(prog):
     m = Machine(prog)
     if prog.get('fwdref'):
         m.res.out += b'\0\0'
+        if prog['fwdref'] >= 3:
+            m.res.out += b'\xad\x34\x12'      # 6502: LDA absolute $1234
     try:
         m.run(prog['items'])
     except ExitM:
@@ -537,5 +557,5 @@ def predict(prog):
         # the label stands behind the last emitted byte; the program starts at address 0
         n = len(m.res.out)
         m.res.out[0:2] = bytes([n & 255, n >> 8])
-        m.res.passes = 2
+        m.res.passes = int(prog['fwdref'])
     return m.res
